@@ -546,7 +546,8 @@ class InterpOracleUnit(Unit):
                     if abs(r - yv) > 1e-7 * (1 + max(abs(t) for t in c["y"])):
                         fail("at-nodes", "at node %s returned %r, sample is %r" % (v, r, yv))
                         break
-        if "affine" in c and interp_like:
+        # clamped end conditions force zero end slopes: affine data is then NOT reproduced (SciPy's semantics, not a defect)
+        if "affine" in c and interp_like and c["kw"].get("bc_type", "not-a-knot") != "clamped":
             a, b = c["affine"]
             for v, r in zip(c["new_x"], o["out"]):
                 if c["x"][0] <= v <= c["x"][-1] and abs(r - (a * v + b)) > 1e-7 * (1 + abs(a * v + b) + max(abs(t) for t in c["y"])):
